@@ -30,8 +30,9 @@ type elem struct {
 	Channel int
 	Payload []byte
 
-	Reduced bool // member of the reduced alphabet (sequences of length 3)
-	Seq     bool // member of the sequence alphabet (false: only single-element phases)
+	Reduced      bool // member of the reduced alphabet (sequences of length 3)
+	Seq          bool // member of the sequence alphabet (false: only single-element phases)
+	ThoroughOnly bool // in sequences only in the thorough tier
 }
 
 func pattern(prefix string, n int) []byte {
@@ -72,15 +73,17 @@ func alphabet() []*elem {
 				"X-Empty": {""}, "RTP-Info": {"url=rtsp://h/a;seq=1, url=rtsp://h/b;seq=2"},
 			}, Seq: true},
 		{Name: "req-play-at-path", Kind: "request", Class: "url-at-sign", Method: "PLAY", URL: "rtsp://host/a@b/c?d=e@f",
-			Header: map[string][]string{"CSeq": {"5"}, "Session": {"1234"}}, Seq: true},
-		{Name: "req-play-at-path-escape", Kind: "request", Class: "url-at-sign", Method: "PLAY", URL: "rtsp://host/a@b%20c/d",
+			Header: map[string][]string{"CSeq": {"5"}, "Session": {"1234"}}, Seq: true, ThoroughOnly: true},
+		{Name: "req-play-at-path-escape", Kind: "request", Class: "url-at-sign-then-escape", Method: "PLAY", URL: "rtsp://host/a@b%20c/d",
 			Header: map[string][]string{"CSeq": {"5"}}, Seq: true},
-		{Name: "req-play-at-query-escape", Kind: "request", Class: "url-at-sign", Method: "PLAY", URL: "rtsp://host/p?u=a@b%26c/d",
+		{Name: "req-play-at-query-escape", Kind: "request", Class: "url-at-sign-then-escape", Method: "PLAY", URL: "rtsp://host/p?u=a@b%26c/d",
+			Header: map[string][]string{"CSeq": {"5"}}},
+		{Name: "req-play-at-query-no-path", Kind: "request", Class: "url-at-sign-no-path", Method: "PLAY", URL: "rtsp://host?u=a@b%26c/d",
 			Header: map[string][]string{"CSeq": {"5"}}},
 		{Name: "req-getparameter-255-headers", Kind: "request", Class: "255-headers", Method: "GET_PARAMETER", URL: "rtsp://host/s",
 			Header: h255, Seq: true},
 		{Name: "req-teardown-plain", Kind: "request", Class: "plain", Method: "TEARDOWN", URL: "rtsps://host:322/",
-			Header: map[string][]string{"CSeq": {"8"}}, Seq: true},
+			Header: map[string][]string{"CSeq": {"8"}}, Seq: true, ThoroughOnly: true},
 		{Name: "req-pause", Kind: "request", Class: "method", Method: "PAUSE", URL: "rtsp://host/s", Header: map[string][]string{"CSeq": {"9"}}},
 		{Name: "req-record", Kind: "request", Class: "method", Method: "RECORD", URL: "rtsp://host/s", Header: map[string][]string{"CSeq": {"9"}}},
 		{Name: "req-set-parameter", Kind: "request", Class: "method", Method: "SET_PARAMETER", URL: "rtsp://host/s",
@@ -104,7 +107,7 @@ func alphabet() []*elem {
 		{Name: "frame-ch0-len0", Kind: "frame", Class: "len0", Channel: 0, Payload: []byte{}, Reduced: true, Seq: true},
 		{Name: "frame-ch1-len1-dollar", Kind: "frame", Class: "looks-like-frame", Channel: 1, Payload: []byte("$"), Reduced: true, Seq: true},
 		{Name: "frame-ch255-len2", Kind: "frame", Class: "len2", Channel: 255, Payload: []byte("RT"), Seq: true},
-		{Name: "frame-ch36-frame-inside", Kind: "frame", Class: "looks-like-frame", Channel: 0x24, Payload: []byte("$\x01\x00\x01A$\x00\xff\xff"), Seq: true},
+		{Name: "frame-ch36-frame-inside", Kind: "frame", Class: "looks-like-frame", Channel: 0x24, Payload: []byte("$\x01\x00\x01A$\x00\xff\xff"), Seq: true, ThoroughOnly: true},
 		{Name: "frame-ch0-response-inside", Kind: "frame", Class: "looks-like-response", Channel: 0,
 			Payload: []byte("RTSP/1.0 200 OK\r\nCSeq: 1\r\n\r\n"), Reduced: true, Seq: true},
 		{Name: "frame-ch1-request-inside", Kind: "frame", Class: "looks-like-request", Channel: 1,
